@@ -52,6 +52,11 @@ class _SktimeForecaster(BaseForecaster):
             y, X, allow_empty=False, enforce_index_type=enforce_index_type
         )
 
+        # fitting starts from the unfitted state, also when the forecaster was fitted
+        # before: whether a horizon is needed, or may differ from an earlier one, is
+        # decided in `_set_fh` by `is_fitted`, which is about `predict`, not `fit`
+        self._is_fitted = False
+
         # set initial cutoff to the end of the training data
         self._set_cutoff(y.index[-1])
 
@@ -380,11 +385,8 @@ class _SktimeForecaster(BaseForecaster):
                 f"`update` is called."
             )
             # refit with updated data, not only passed data; the horizon may not
-            # have been given yet (it can still be passed to `predict`), so refit
-            # from the unfitted state, in which `fit` does not insist on one
-            fh = self._fh
-            self._is_fitted = False
-            self.fit(self._y, self._X, fh)
+            # have been given yet (it can still be passed to `predict`)
+            self.fit(self._y, self._X, self._fh)
         return self
 
     def update_predict(
